@@ -331,8 +331,9 @@ def mathMin (i j : Int) : Int := ofU64 (if toU64 i < toU64 j then toU64 i else t
 
 def mathMax (i j : Int) : Int := ofU64 (if toU64 i > toU64 j then toU64 i else toU64 j)
 
-/-- math.abs = llabs (undefined behaviour for INT64_MIN: outside the model). -/
-def mathAbs (i : Int) : Int := if i < 0 then -i else i
+/-- math.abs = llabs.  `llabs(INT64_MIN)` is undefined behaviour in C and |INT64_MIN| is not an
+    int64: the model (and the specification) give undefined. -/
+def mathAbs (i : Int) : Option Int := if i = -two63 then none else some (if i < 0 then -i else i)
 
 def mathToNumber (b : Bool) : Int := if b then 1 else 0
 
